@@ -138,9 +138,12 @@ class C18(Prop):
                     yield sx([1, data, list(range(0, k + 3)) + [len(data), len(data) + 1]]), ["chunker", f"chunker-lines={k}", "non-ascii",
                                                                                               "final-newline" if nl else "no-final-newline"]
         # text-like: CRLF line ends, trailing blanks, one long line beyond BufReader's 8 KiB buffer
-        extra = [b"a\tb \r\nc\r\n\r\nd  ", b"x" * 9000 + b"\ny\n" + b"z" * 20, b"y\n" + b"x" * 9000, b"\n\n\n", b"no newline at all"]
+        extra = [b"a\tb \r\nc\r\n\r\nd  ", b"x" * 9000 + b"\ny\n" + b"z" * 20, b"y\n" + b"x" * 9000, b"\n\n\n", b"no newline at all",
+                 # lines whose end lies several buffer lengths beyond a chunk target
+                 b"x" * 18000 + b"\nyy\n"]
         for data in extra:
-            yield sx([1, data, list(range(0, 8)) + [100, 1000]]), ["chunker", "chunker-text-like"]
+            ns = [1, 2] if len(data) > 15000 else list(range(0, 8)) + [100, 1000]      # the model walks the bytes once per chunk
+            yield sx([1, data, ns]), ["chunker", "chunker-text-like"] + (["line>8KiB-beyond-target"] if len(data) > 15000 else [])
 
     def index_cases(self, rng, tier):
         def files_from(lens, mask):
